@@ -58,7 +58,7 @@ func QToProto(q Q) *webserverv1.Q {
 }
 
 func QFromProto(p *webserverv1.Q) (Q, error) {
-	switch v := p.Query.(type) {
+	switch v := p.GetQuery().(type) {
 	case *webserverv1.Q_RawConfig:
 		return RawConfigFromProto(v.RawConfig), nil
 	case *webserverv1.Q_Regexp:
@@ -98,7 +98,8 @@ func QFromProto(p *webserverv1.Q) (Q, error) {
 	case *webserverv1.Q_Meta:
 		return MetaFromProto(v.Meta)
 	default:
-		panic(fmt.Sprintf("unknown query node %T", p.Query))
+		// p is nil or its oneof is unset when a client leaves a (sub)query out.
+		return nil, fmt.Errorf("unknown query node %T", p.GetQuery())
 	}
 }
 
